@@ -4,6 +4,8 @@ import SpoxModel.Generated.RenamesIR
 import SpoxModel.Generated.Writes
 import SpoxModel.Lemmas.Memo
 import SpoxModel.Generated.GraphSetters
+import SpoxModel.Lemmas.FrontIR
+import SpoxModel.Generated.BuildFrontIR
 /-!
 # C12 — build and inline are pure, repeatable and independent of process history
 
@@ -83,6 +85,40 @@ theorem build_deterministic_counterexample :
       inputsOf (build Generated.RenamesIR.ir exP List.reverse false exReq (fun _ => none)).2 := by
   decide
 
+/-! ## `build` as the list of its statements (extracted from `_public.py` on this run) -/
+
+/-- Obligation: the statement list of `build` extracted on this run is the accepted one. -/
+theorem generated_build_good : FrontIR.goodShape Generated.BuildFrontIR.ir = true := by decide
+
+theorem build_statements_eq (P : List Obj) (π : List Nat → List Nat) (req : Request) (s : Store) :
+    FrontIR.run Generated.BuildFrontIR.ir Generated.RenamesIR.ir P π req s =
+      build Generated.RenamesIR.ir P π true req s := by
+  rw [FrontIR.goodShape_eq generated_build_good, goodShape_eq generated_good]
+  exact FrontIR.run_fixedIR P π req s
+
+/-- Executing the statements of `build` — whichever guard raises, whatever `to_onnx_model` does inside
+    the block — leaves every Var's name as it was: a failed build leaves no trace in `_name`. -/
+theorem build_statements_restore_names (P : List Obj) (π : List Nat → List Nat) (req : Request)
+    (s : Store) : (FrontIR.run Generated.BuildFrontIR.ir Generated.RenamesIR.ir P π req s).1 = s := by
+  rw [build_statements_eq]
+  exact build_restores_names P π true req s
+
+/-- … and gives one result under every iteration order of Python sets. -/
+theorem build_statements_deterministic (P : List Obj) (π π' : List Nat → List Nat)
+    (hπ : ∀ l, (π l).Perm l) (hπ' : ∀ l, (π' l).Perm l) (req : Request) (s : Store)
+    (hkeys : (req.inputs.map (·.name)).Nodup)
+    (hunnamed : ∀ v, v ∉ req.inputs.map (·.obj) → s v = none) :
+    FrontIR.run Generated.BuildFrontIR.ir Generated.RenamesIR.ir P π req s =
+      FrontIR.run Generated.BuildFrontIR.ir Generated.RenamesIR.ir P π' req s := by
+  rw [build_statements_eq, build_statements_eq]
+  exact build_deterministic P π π' hπ hπ' req s hkeys hunnamed
+
+/-- The pinned statement list (no re-listing) does depend on the set order. -/
+theorem pinned_statements_order_dependent :
+    inputsOf (FrontIR.run FrontIR.pinnedIR Generated.RenamesIR.ir exP id exReq (fun _ => none)).2 ≠
+      inputsOf (FrontIR.run FrontIR.pinnedIR Generated.RenamesIR.ir exP List.reverse exReq (fun _ => none)).2 := by
+  decide
+
 /-! ## Purity: the statements of spox that write to lasting state (table extracted from /repo) -/
 
 /-- Every statement of `src/spox/_*.py` that writes to an attribute, an item of an attribute or of
@@ -110,6 +146,23 @@ theorem inline_copies_first : Purity.copyBeforeMutate Generated.Writes.inlineEve
     `list()` …) assigned in its class body: such an object would be shared by every instance —
     every Builder, Scope, Graph, Node of the process — and carry state from one build to the next. -/
 theorem no_class_level_mutable_state : Generated.Writes.classMutables = [] := by decide
+
+/-- No function or class of the hand-written modules carries a memoising decorator (`lru_cache`,
+    `cache`, `cached_property` … keep results between builds without any write site): every decorator
+    in the tree is one of the stateless ones (`property`, `classmethod`, `contextmanager`, `dataclass` …). -/
+theorem no_memoising_decorators : Purity.decoratorsOk Generated.Writes.decorators = true := by decide
+
+/-- Every module-level container is a `TypeVar`, an `__all__` list, or one of the tables `_schemas.py`
+    computes at import time — and no statement writes into those: there is no module-level cache
+    (dict / `WeakKeyDictionary` keyed by node, name, opsets …) that a later build could read. -/
+theorem no_module_level_caches :
+    Purity.moduleMutablesOk Generated.Writes.moduleMutables = true ∧
+    Purity.importTablesReadOnly Generated.Writes.sites = true := by decide
+
+/-- `__dict__` / `vars()` — the way to attach state to a node without an attribute assignment — is
+    used only by the field enumeration in `_fields.py`; a mutator call through it
+    (`node.__dict__.setdefault(…)`) would in addition be a `mutate-attr` site rejected by `writes_allowed`. -/
+theorem dict_backdoor_unused : Purity.dictAccessOk Generated.Writes.dictAccess = true := by decide
 
 /-! ## Memoised build results (`Graph._build_result`) -/
 
